@@ -434,13 +434,16 @@ def suite_C01(g, tier):
             p.op("Point.Bytes", r="p0", o=["b0"])
     # calls in which every scalar is short (the algorithms may size their loops by the longest scalar)
     reps = 2 if tier == "quick" else 12
-    for _ in range(reps):
+    for rep in range(reps):
         for cap in (64, 65, 128, 129, 192, 193, 250):
             p = g.new("C01 all scalars below 2^%d" % cap)
             load_point(p, "p1", any_point(rng), rng)
             load_point(p, "p2", any_point(rng), rng)
+            # the longest scalar of the call is, in turn, all ones up to the width (its NAF / radix-16 recoding carries out of
+            # the top word), a top-aligned 0xf8..01 pattern, exactly 2^(cap-1), and random; the others are anything shorter
+            tops = [2**(cap - 1) - 1, (0x1f << (cap - 6)) | 1, 2**(cap - 1), rng.randrange(2**(cap - 2), 2**(cap - 1))]
             for j in range(3):
-                v = rng.choice([2**(cap - 1) - 1, 2**(cap - 1), bitlen_scalar(rng, cap), bitlen_scalar(rng, cap)]) if cap > 1 else 1
+                v = tops[rep % 4] if j == 0 else rng.choice([2**(cap - 1) - 1, 2**(cap - 1), bitlen_scalar(rng, cap), bitlen_scalar(rng, cap)])
                 p.scalar_canon("s%d" % j, v % L)
             r = rng.choice(["p0", "p3"])
             p.op("Point.VarTimeMultiScalarMult", r=r, ss=["s0", "s1"], ps=["p1", "p2"])
